@@ -492,10 +492,11 @@ static bool do_op(mstate *m, op_t op, mismatch *mm, bool counting)
 }
 
 /* should a mismatch at (before-state, op) be reported under the property being decided? */
-static bool attributable(const mstate *before, op_t op)
+static bool attributable(const mstate *before, op_t op, const mismatch *mm)
 {
     if (P_C06) return true;
-    if (P_C11) return op == 'r' || op == 'w' || before->after_raw;
+    /* the container-identity probe IS a get_raw on the container just reported: its failure is C11's */
+    if (P_C11) return op == 'r' || op == 'w' || before->after_raw || !strcmp(mm->sigctx, "container-identity");
     if (P_C07) return (op & 0x80) || before->after_field;
     return true;
 }
@@ -601,7 +602,7 @@ static void explore_config(const op_t *ops, int nops)
             mismatch mm;
             cur_state = s; cur_op = op; cur_in_bfs = 1;     /* fatal handler reconstructs the history lazily */
             if (!do_op(&m, op, &mm, true)) {
-                if (attributable(&ms, op)) report(s, op, &ms, &mm);
+                if (attributable(&ms, op, &mm)) report(s, op, &ms, &mm);
                 else vf_count(CT_IGNORED_OTHER_PROP, 1);
                 continue;       /* do not expand a failing state */
             }
@@ -718,6 +719,23 @@ static void towers(void)
             if (variant) { vf_b_name(&t, "b", 1); vf_b_int(&t, 99); vf_b_close(&t); }
             handle_doc(&t);
         }
+    /* containers that start beyond offset 65536 (16-bit offsets wrap) */
+    for (int variant = 0; variant < 2; variant++) {
+        if (!take_doc()) continue;
+        static uint8_t blob[70000];
+        memset(blob, 0xb1, sizeof blob);
+        vf_b_reset(&t);
+        if (variant == 0) {
+            vf_b_open(&t, VK_OBJ); vf_b_name(&t, "a", 1); vf_b_blob(&t, VK_BYT, blob, sizeof blob);
+            vf_b_name(&t, "b", 1); vf_b_open(&t, VK_OBJ); vf_b_name(&t, "x", 1); vf_b_int(&t, 1); vf_b_close(&t);
+            vf_b_name(&t, "c", 1); vf_b_open(&t, VK_ARR); vf_b_int(&t, 2); vf_b_open(&t, VK_ARR); vf_b_int(&t, 3); vf_b_close(&t); vf_b_blob(&t, VK_STR, "s", 1); vf_b_close(&t);
+            vf_b_name(&t, "d", 1); vf_b_int(&t, 4); vf_b_close(&t);
+        } else {
+            vf_b_open(&t, VK_ARR); vf_b_blob(&t, VK_STR, blob, 66000); vf_b_open(&t, VK_ARR); vf_b_int(&t, 1); vf_b_close(&t);
+            vf_b_open(&t, VK_OBJ); vf_b_name(&t, "k", 1); vf_b_open(&t, VK_OBJ); vf_b_close(&t); vf_b_close(&t); vf_b_int(&t, 2); vf_b_close(&t);
+        }
+        handle_doc(&t);
+    }
     /* object towers up to the snapshot limit */
     static const int os[] = { 10, 14 };
     for (int oi = 0; oi < 2; oi++) {
